@@ -35,6 +35,11 @@ CHECKS = {
             "(a) Unit level on makeKeySafe / mapKeyFork.forkString / encodeJournalName / Node.parseRunFilename: every key that is a concatenation of at most 3 (thorough 4) atoms of an 18-atom alphabet ('.', '/', '%', '2E', '2F', '25', space, non-ASCII, 'fork', 'chnk1', 'u0123456789', 'complete', newline, ...) plus the adversarial key sets: fork directory name is one legal path component, journal form holds no '.' or '/', both encodings are injective over the whole set, and every journal file name built from 3 call names (including calls named fork1, fork_x, chnk0) x 5 fork-id shapes x chunk {none,0,12} x attempt {none,u0123456789} x 4 notifications parses back to exactly its components. (b) End to end: programs nesting 1-2 mapped calls over literal and run-time arrays (lengths 1,2,10,11; thorough 9,100,101) and typed maps with 18 key sets (dots, slashes, percent signs, text that looks encoded, spaces, empty key, non-ASCII, numeric-looking, fork/chunk/attempt/notification look-alikes, case pairs, keys that are suffixes/prefixes of one another, shell and JSON metacharacters) plus every unordered pair of the 56 keys of one or two atoms of {a,b,_,.,/,%,0} (1540 run-time key sets), non-split and split leaves (2 and 11 chunks). Each run on the real runtime must complete, give every job its denoted arguments, run every fork exactly once and return collections with exactly the keys; fork directories and journal names must be pairwise distinct. Then for EVERY split/join/chunk metadata object of the finished pipestance and each of {complete, errors, progress} the journal file its job would write is written and consumed by the real Node.refreshState: exactly that object must be notified, and a file of another attempt must notify nobody.",
             "keys whose encoded form exceeds the 255-byte file-name limit are outside the family (documented file-name restriction); journal files are written as mrjob writes them (base name of the run-file argument + phase prefix + name); the routing probe runs on the finished pipestance (all forks and chunks exist), routing during the run is covered indirectly by completion",
             "DESIGN.md 4/C11"),
+    "C12": ("model_checking",
+            "stateless model checking of the real implementation: exhaustive depth-first enumeration of all thread schedules up to a preemption bound under a cooperative scheduler (hand-written; sync primitives of the two semaphore files mechanically rewritten), in lock step with sequential reference models; exhaustive request-grid enumeration for the normalisation function",
+            "resource_semaphore.go and maxjobs_semaphore.go are compiled with sync.Mutex / sync.Cond / <-c / close(c) replaced by scheduler-aware equivalents, every go statement of package core by a scheduler spawn and executeLocal by a harness job body. ALL schedules with at most 2 (thorough 3) preemptions are enumerated for (a) 1550 ResourceSemaphore scenarios (limit 4; 2-3 threads doing Acquire(n)/hold/Release(n) with n in 1..5, re-acquiring threads, observers, an updater doing 1-2 of 8 UpdateActual/UpdateSize/UpdateFreeUsed operations): after EVERY critical section the real reserved / current size / queue are compared with a FIFO reference model stepped with the same operation, plus reserved <= limit, oldest-waiter-fits => granted, the holders' own ledger <= limit, and at quiescence the granted / refused / blocked threads equal the model's; (b) 1080 MaxJobsSemaphore scenarios (limits 1-2; blocking, non-blocking and never-released submitters, duplicate metadata, cancellation while waiting, FindDone): slot set equals the model after every critical section, slots <= limit, submitted-and-unfinished jobs <= limit, Acquire results equal the model's, nobody waits while a slot is free at quiescence; (c) 420 LocalJobManager.Enqueue scenarios through the real GetSystemReqs + cores->memory->vmem acquisition + deferred release (2-3 jobs from 9 request shapes incl. zero, fractional, over the limit, adaptive; with and without a vmem limit): summed reservations of simultaneously running jobs <= limits, every job runs, nothing stays reserved; (d) GetSystemReqs on a grid of 36 limit settings x 4 availabilities x 1456 requests. Every violating schedule is replayed and must reproduce before it is reported; replay files hold scenario + choice sequence.",
+            "sync.Cond.Signal wakes the longest waiter (Go's notifyList); memory-model effects below mutex granularity are not modelled (accesses are all under the mutexes); availability updates come from a fixed menu rather than the OS; the remote manager's qsub path and procsSem are not driven; preemption bound 2/3, thread count <= 4; one known finding (request beyond int64)",
+            "DESIGN.md 4/C12"),
     "C13": ("exploration",
             "exhaustive enumeration of top-level output signatures x leaf modes x mapping/wrapping, run on the real runtime and post-processor, type-directed before/after walk of the outputs record",
             "2744 programs in the quick family (all combinations in thorough): top-level pipelines returning each of 14 producer outputs alone (user file type, file, arrays and typed maps of files, struct / struct array / typed map of structs holding a file, 2-dimensional file array, typed map of file arrays, struct of struct + array + map + explicitly named file, string and untyped map holding a path, directory, int) and three combinations x collection sizes {2,0,1,11} x leaf modes {written, null, named-but-missing, relative symlink, outside the pipestance} x explicit out names x mapped producer x mapped top-level call x pass-through sub-pipeline, plus 5 kinds of output-name collision (explicit vs default name in both declaration orders, two explicit names, inside a struct, file vs directory) and 5 map-key styles (unusual but legal file names; '/', '.', '..', empty; quotes, backslashes, control characters). Each program runs to completion on the real runtime with real files, then VDRKill + PostProcess as mrp does. Oracle: record is valid JSON of the same shape, non-file values unchanged, every non-null file leaf recorded at an existing location under outs/ holding exactly its producer's bytes (files are self-describing), leaves naming different files at different locations, file-type extension kept; colliding names must be rejected at compile time or materialised apart.",
